@@ -16,3 +16,4 @@ pub fn naive_find(p: &[u8], t: &[u8]) -> Vec<usize> {
 pub mod align;
 pub mod sa;
 pub mod io;
+pub mod fm;
